@@ -24,6 +24,9 @@ type EStep struct {
 	Ack   int       `json:"ack,omitempty"`
 	ID    *drv.U128 `json:"id,omitempty"`    // elect: announced id; probe: stamp (nil = none)
 	OpID  uint64    `json:"opid,omitempty"`
+	// Unk (elect): the Uint128 message carries an unknown field (a client built from a newer schema); the id it
+	// announces is the same
+	Unk bool `json:"unk,omitempty"`
 }
 
 // ECase is an election script.
@@ -84,7 +87,11 @@ func runEScript(c ECase) ([]drv.ObsOut, error) {
 				Redundancy: spb.SessionParameters_ClientRedundancy(st.Red), Persistence: spb.SessionParameters_AFTPersistence(st.Pers),
 				AckType: spb.SessionParameters_AFTResultStatusType(st.Ack)}}, 1)
 		case "elect":
-			rs, err = s.SendN(&spb.ModifyRequest{ElectionId: st.ID.Proto()}, 1)
+			m := &spb.ModifyRequest{ElectionId: st.ID.Proto()}
+			if st.Unk {
+				m.ElectionId.ProtoReflect().SetUnknown([]byte{0x78, 0x01}) // field 15, varint 1
+			}
+			rs, err = s.SendN(m, 1)
 		case "probe":
 			rs, err = s.SendBarrier(probeReq(st.OpID, st.ID))
 		case "close":
@@ -183,7 +190,7 @@ func genECase(r *drv.Rng) ECase {
 					id = drv.U128{Hi: b.Hi + 1, Lo: b.Lo - 1}
 				}
 			}
-			c.Steps = append(c.Steps, EStep{K: "elect", S: s, ID: &id})
+			c.Steps = append(c.Steps, EStep{K: "elect", S: s, ID: &id, Unk: r.Chance(1, 10)})
 			if neg[s] && !id.IsZero() {
 				idc := id
 				last[s] = &idc
@@ -258,6 +265,8 @@ func latticeCases() []ECase {
 
 // tieCases: announcement orders in which the same id is repeated by the same or by another session (a tie goes
 // to the most recent announcer), every session probed after every announcement.
+var unkSeq int
+
 func tieCases() []ECase {
 	var out []ECase
 	ws := drv.BoundaryWords
@@ -267,6 +276,7 @@ func tieCases() []ECase {
 			x := drv.U128{Hi: h, Lo: l}
 			lower := drv.U128{Hi: h, Lo: l - 1}
 			for _, pat := range patterns {
+				unkSeq++
 				c := ECase{}
 				for s := 1; s <= 3; s++ {
 					c.Steps = append(c.Steps, EStep{K: "connect", S: s}, EStep{K: "params", S: s, Red: 1, Pers: 1})
@@ -282,7 +292,7 @@ func tieCases() []ECase {
 						}
 					}
 					idc := id
-					c.Steps = append(c.Steps, EStep{K: "elect", S: who, ID: &idc})
+					c.Steps = append(c.Steps, EStep{K: "elect", S: who, ID: &idc, Unk: unkSeq%3 == 0 && who == 2})
 					last[who] = id
 					for s := 1; s <= 3; s++ {
 						if l, ok := last[s]; ok {
